@@ -77,3 +77,12 @@ Theorem C07_timeout_check_is_the_code :
   forall s abs, int_ok (last_abs_count s + 1) -> timeout_check_code s abs = Some (timeout_check s abs).
 Proof. exact timeout_check_is_the_code. Qed.
 Print Assumptions C07_timeout_check_is_the_code.
+
+(* iv_event_post from the owner thread (the wake-up of a self-post is the loop's internal task): the model's event_post is
+   built from the translated tests and stores of the C function; calls of iv_list_empty / iv_task_registered inside the
+   tests are instantiated with the model's lists *)
+From Ivv Require Import Gen.LeafCoreEvent Gen.LeafCoreLists.
+Theorem C07_event_post_is_the_code :
+  forall s j, event_post_code s j = Some (event_post s j).
+Proof. exact event_post_is_the_code. Qed.
+Print Assumptions C07_event_post_is_the_code.
